@@ -394,10 +394,22 @@ func extSprint(fr *frame, args []value) value {
 	vs := args[0].([]value)
 	gas, all := goArgs(fr, vs)
 	if !all {
-		if len(vs) == 1 {
-			if r, ok := symSprintf(fr, "%v", vs); ok {
-				return r
+		// Sprint: operands printed with %v, a space between two operands when neither is a string
+		isStrArg := func(v value) bool {
+			if it, ok := v.(iface); ok {
+				v = it.v
 			}
+			return isStr(v)
+		}
+		format := ""
+		for i := range vs {
+			if i > 0 && !isStrArg(vs[i-1]) && !isStrArg(vs[i]) {
+				format += " "
+			}
+			format += "%v"
+		}
+		if r, ok := symSprintf(fr, format, vs); ok {
+			return r
 		}
 		return opaque{"fmt.Sprint over symbolic values"}
 	}
